@@ -500,8 +500,18 @@ def check_C16(tier, seed):
                 ops += [mk("create", snap=dict(bases["min"], relative_path=["other/t3.wav"])), mk("remove", t=2), mk("remove", t=3)]
                 scripts.append(ops)
         ws = []
+        # sessions on disk: observe-only sessions between reloads (what a connection does when it is CLOSED counts: the tables
+        # after the reload must be the tables before the last handle was released), then a setter, then observe-only again
+        dscripts = []
+        for a in ("full", "min"):
+            ops = [mk("create", snap=bases[a]), mk("reopen"), mk("reopen")]
+            for o in r.sample(singles, 2):
+                ops += [mk("set", t=1, f=o["f"], v=o["v"]), mk("reopen")]
+            ops += [mk("create", snap=dict(bases["min"], relative_path=["other/t2.wav"])), mk("reopen"), mk("remove", t=1), mk("reopen"), mk("reopen")]
+            dscripts.append(ops)
         for s in (vlib.quick_schemas(seed, 1) if tier == "quick" else vlib.ALL):
             ws.append(Workload(s, scripts, [], flags={"rep": True, "stale_get": True}, tag="t", origin=res["instance"]))
+            ws.append(Workload(s, dscripts, [], mode="disk", flags={"rep": True}, tag="td", origin=res["instance"]))
         return ws
 
     import trackchecks as _tc
